@@ -730,6 +730,13 @@ def compare(ctx, cases, impl, index, model):
         kinds = [s["kind"] for s in im["cached"]]
         for k in kinds:
             ctx.bump("lookup_" + k)
+        for lk, st in zip(resolve_lookups(c, im["root"]), im["cached"]):
+            if st["kind"] == "err":
+                ctx.bump("err_" + st["err"])
+            elif st["kind"] == "hit":
+                tail = list(lk["env"]) + [lk["cwd"], lk["home"]]
+                k1 = any(k[0] == "1" and k[2:] == tail for k in st["keys"])
+                ctx.bump("hit_via_dir_key" if k1 else "hit_via_file_list_key")
         ctx.bump("history_len_%d" % len(kinds))
         for s in im["cached"]:
             if s["kind"] == "loaded":
@@ -743,7 +750,7 @@ def compare(ctx, cases, impl, index, model):
 
 
 def run(ctx):
-    n = 400 if ctx.quick else 6000
+    n = int(os.environ.get("VERIF_C12_N", 400 if ctx.quick else 4000))
     ctx.coverage["rule"] = ("cases from one seeded PRNG: 80% lookup histories (1-4 lookups; cwd, HOME, target and the three "
                             "environment variables change between lookups) in generated trees with .pyflyby files/dirs at several "
                             "levels, hidden/__pycache__/unsafe entries, device boundaries; 15% in-memory compositions (+ __or__); "
